@@ -15,6 +15,51 @@ package mshr
 //@   ensures result <==> len(entries) == 0
 //@   assigns nothing
 
-// NOT under contract (engine blocker): Find / IsPresent / Remove call e.GetPID() / e.GetAddress() on a value of the TYPE
-// PARAMETER E; the engine keys interface-method contracts by a NAMED type (specdb.ifaceSpec: namedOf(E) == nil), so the call
-// "E.GetPID" can never be given a contract and havocs the heap.
+// Entry is a type-parameter constraint: its two getters are pure functions of the entry value (trusted: any implementation)
+//@ ufunc ePID(e) int
+//@ ufunc eAddr(e) int
+//@ iface mshr.Entry.GetPID()
+//@   trusted
+//@   pure
+//@   ensures result == ePID(self)
+//@ iface mshr.Entry.GetAddress()
+//@   trusted
+//@   pure
+//@   ensures result == eAddr(self)
+//@ pred eIs(e, pid, addr) = ePID(e) == pid && eAddr(e) == addr
+
+//@ fn Find
+//@   property C25
+//@   label C25.mshr.find.range
+//@   ensures (result1 ==> 0 <= result0 && result0 < len(entries)) && (!result1 ==> result0 == -1)
+//@   label C25.mshr.find.hit
+//@   ensures result1 ==> eIs(entries[result0], pid, addr)
+//@   label C25.mshr.find.first
+//@   ensures forall j in 0..(result1 ? result0 : len(entries)) :: !eIs(entries[j], pid, addr)
+//@   assigns nothing
+//@   loop 0: invariant -1 <= rangeindex && rangeindex < len(entries)
+//@   loop 0: invariant forall j in 0..rangeindex + 1 :: !eIs(entries[j], pid, addr)
+
+//@ fn IsPresent
+//@   property C25
+//@   label C25.mshr.present
+//@   ensures result <==> !(forall j in 0..len(entries) :: !eIs(entries[j], pid, addr))
+//@   assigns nothing
+
+// Remove: the FIRST matching entry is removed, the others keep their order; panics iff there is none
+//@ fn Remove
+//@   property C25
+//@   panics forall j in 0..len(entries) :: !eIs(entries[j], pid, addr)
+//@   witness at int = i
+//@   label C25.mshr.remove.len
+//@   ensures len(result) == len(entries) - 1 && 0 <= at && at < len(entries) && eIs(old(entries[at]), pid, addr)
+//@   label C25.mshr.remove.first
+//@   ensures forall j in 0..at :: !eIs(old(entries[j]), pid, addr)
+//@   label C25.mshr.remove.before
+//@   ensures forall j in 0..at :: result[j] == old(entries[j])
+//@   label C25.mshr.remove.after
+//@   ensures forall j in at..len(result) :: result[j] == old(entries[j + 1])
+//@   assigns elems(entries)
+//@   loop 0: invariant -1 <= rangeindex && rangeindex < len(entries)
+//@   loop 0: invariant forall j in 0..rangeindex + 1 :: !eIs(entries[j], pid, addr)
+//@   loop 0: invariant nothingAssigned()
